@@ -150,6 +150,13 @@ pub struct PrintCases {
 
 impl PrintCases {
     fn judge_text(&self, p: &Prob, ss: &SettingsSpec, st: &DefaultSettings<f64>, text: &str, r: &Run) -> CaseResult {
+        judge_output_text(p, ss, st, text, r)
+    }
+}
+
+/// parse one complete verbose output and compare it with the truth
+pub fn judge_output_text(p: &Prob, ss: &SettingsSpec, st: &DefaultSettings<f64>, text: &str, r: &Run) -> CaseResult {
+    {
         let lines: Vec<&str> = text.lines().collect();
         let find = |prefix: &str| lines.iter().position(|l| l.trim_start().starts_with(prefix));
         // ---- header: true internal dimensions
@@ -400,6 +407,17 @@ fn spaces_typed(tier: &str) -> Vec<PrintCases> {
             stdout_every: 211,
         });
     }
+    // presolve reductions present: rows with an infinite bound
+    for (l, n) in &lists[..2] {
+        v.push(PrintCases {
+            src: Box::new(Planted::new(l.clone(), *n, svar.clone(), Judge::C04, 0, vec![0, 5], "S<=1+maxiter").with_inf_rows()),
+            stdout_every: 211,
+        });
+    }
+    v.push(PrintCases {
+        src: Box::new(Planted::new(vec![NN(2), SOC(1), PSD(1), Zero(1), NN(0)], 2, s0.clone(), Judge::C04, 1, vec![0, 5], "default").with_inf_rows()),
+        stdout_every: 0,
+    });
     // tiny programs reach the degenerate verdicts (InsufficientProgress, NumericalError, Almost*)
     for l in [vec![NN(2)], vec![SOC(2)], vec![Zero(1), NN(1)]] {
         v.push(PrintCases {
@@ -417,5 +435,9 @@ fn spaces_typed(tier: &str) -> Vec<PrintCases> {
 }
 
 pub fn spaces(tier: &str, _seed: u64) -> Vec<Box<dyn Space>> {
-    spaces_typed(tier).into_iter().map(|s| Box::new(s) as Box<dyn Space>).collect()
+    let mut v: Vec<Box<dyn Space>> = spaces_typed(tier).into_iter().map(|s| Box::new(s) as Box<dyn Space>).collect();
+    // statuses that only faults can produce on demand (NumericalError, roll-backs, strategy switches)
+    let (k, d) = if tier == "thorough" { (6, 3) } else { (4, 2) };
+    v.push(Box::new(super::faults::Schedules::new(k, d, super::faults::FJudge::C20)));
+    v
 }
